@@ -324,7 +324,7 @@ Definition judge (c : case) : list verdict :=
     clause "C06_no_route_from_a_half_configured_network" (c03_route_after_ready c);
     (* F30: without a workload the revision label key is unknown and RestoreStableService is passed with the pin in place *)
     clause_known "C05_task_passed_means_done" "C05:F30"
-      (negb (wl_exists (rc_wl (x_inner c))) && match sub_of (rc_status (x_inner c)) with Some u => ftask_eqb (su_fin u) FtRestoreStable | None => false end)
+      (negb (wl_exists (rc_wl (x_inner c))) && match sub_of (rc_status (x_inner c)) with Some u => ftask_eqb (su_fin u) FtRestoreStable | None => false end && corresponds_tr c)
       (c05_task_passed_means_done c);
     clause "C03_route_written_only_after_pods_ready" (c03_route_after_ready c);
     clause "C03_routed_means_exact" (c03_routed_exactly c);
@@ -332,8 +332,8 @@ Definition judge (c : case) : list verdict :=
     clause "C03_jump_reaches_traffic_routing_only_between_equal_replicas" (c03_jump_upgrades_first c);
     (* F31: the exit reason changes while the cursor is mid-sequence (rollback being finalised, then delete / disable):
        the cursor is kept but read against the other order, so tasks are skipped *)
-    clause_known "C04_finalising_invariant_kept" "C04:F31" (reason_changed c) (c04_invariant_kept c);
-    clause_known "C06_finalising_invariant_kept_from_any_memory_state" "C06:F31" (reason_changed c) (c04_invariant_kept c);
+    clause_known "C04_finalising_invariant_kept" "C04:F31" (reason_changed c && corresponds_tr c) (c04_invariant_kept c);
+    clause_known "C06_finalising_invariant_kept_from_any_memory_state" "C06:F31" (reason_changed c && corresponds_tr c) (c04_invariant_kept c);
     clause "C05_done_means_network_clean" (c05_done_means_clean c);
     clause "C07_quiet_reconcile_with_traffic_is_waiting_for_someone" (c07_quiet_means_waiting_tr c);
     clause "C10_rollback_touches_workload_only_after_traffic_is_back" (c10_rollback_traffic_first c);
